@@ -33,6 +33,8 @@ from .sstr import reset_atoms
 
 EXIT_OK, EXIT_VIOLATION, EXIT_HARNESS = 0, 1, 3
 VERIF = os.path.dirname(os.path.dirname(os.path.abspath(__file__)))
+# development aid (seed testing in scratch worktrees): evidence/replays of such runs go elsewhere; unset in every registered command
+EVID = os.environ.get("SYMX_EVIDENCE_DIR") or os.path.join(VERIF, "evidence")
 
 
 class Family:
@@ -343,11 +345,11 @@ def run_check(H, tier, seed, only_family=None, jobs=None, verbose=True):
             harness_errors.append("vacuity: family %s never reached '%s'" % (f.name, f.nontrivial))
 
     # ---- evidence
-    os.makedirs(os.path.join(VERIF, "evidence", "replays"), exist_ok=True)
+    os.makedirs(os.path.join(EVID, "replays"), exist_ok=True)
     replay_paths = []
     for n, (sig, items) in enumerate(new_viol):
         c, desc = items[0]
-        path = os.path.join(VERIF, "evidence", "replays", "%s-%d.json" % (H.ID, n))
+        path = os.path.join(EVID, "replays", "%s-%d.json" % (H.ID, n))
         json.dump(dict(property=H.ID, signature=sig, label=c["label"], family=c["family"], witness=c["witness"],
                        description=desc, detail=c["detail"],
                        reproduce="cd /verif && ./check %s --replay %s" % (H.ID, path)), open(path, "w"), indent=1, default=str)
@@ -401,7 +403,7 @@ def run_check(H, tier, seed, only_family=None, jobs=None, verbose=True):
             z3=z3.get_version_string(),
         ),
     )
-    json.dump(ev, open(os.path.join(VERIF, "evidence", "%s.json" % H.ID), "w"), indent=1, default=str)
+    json.dump(ev, open(os.path.join(EVID, "%s.json" % H.ID), "w"), indent=1, default=str)
 
     # ---- report
     for p in per:
